@@ -82,7 +82,7 @@ PROPS = {
         "assumptions": ["L1 (single segment file) form; the WAL-level lifting is part of C05/C01",
                         "segment files stay below 2^32 bytes",
                         "the 64 MiB +- 1 cases run on the implementation only (thorough tier): a 128 MiB hex line is too large for the model driver; the theorems cover every size"],
-        "rule": "sizes: payload 0 and all residues mod 8 alone and at each batch position, segment limit +- frame overhead for limits 256/512/1024, entries larger than the whole segment, payloads 65512..65544 around the 64 KiB read buffer (4 per quick run, all 33 in thorough), random mixes; thorough adds MaxEntrySize-1, MaxEntrySize, MaxEntrySize+1 alone and mid-batch at segment level; both tiers run, through wal.StoreLogs/GetLog/Close/Open (implementation only), payloads whose encoding crosses the limit (Data of MaxEntrySize-8 and MaxEntrySize bytes, 48 MiB Data + 17 MiB Extensions) and one batch of three 22 MiB entries that must survive a reopen of the unsealed tail",
+        "rule": "sizes: payload 0 and all residues mod 8 alone and at each batch position, segment limit +- frame overhead for limits 256/512/1024, entries larger than the whole segment, payloads 65512..65544 around the 64 KiB read buffer (the 10 sizes at which frame, payload or payload+header cross 65536 and the window ends in quick, all 33 in thorough), random mixes; thorough adds MaxEntrySize-1, MaxEntrySize, MaxEntrySize+1 alone and mid-batch at segment level; both tiers run, through wal.StoreLogs/GetLog/Close/Open (implementation only), payloads whose encoding crosses the limit (Data of MaxEntrySize-8 and MaxEntrySize bytes, 48 MiB Data + 17 MiB Extensions) and one batch of three 22 MiB entries that must survive a reopen of the unsealed tail",
     },
 }
 PROPS["C11"] = {
